@@ -320,10 +320,9 @@ func (tr *Trace) String() string {
 	var b strings.Builder
 	for i, a := range tr.attempts {
 		fmt.Fprintf(&b, "  attempt %d @%v (answered @%v) kind=%s Last-Event-ID=%q body=%q\n", i, a.at, a.answered, a.kind, a.hdr, a.body)
-		for _, r := range tr.retries {
-			if r.at >= a.answered && (i+1 >= len(tr.attempts) || r.at <= tr.attempts[i+1].at) {
-				fmt.Fprintf(&b, "    OnRetry @%v wait=%v err=%v\n", r.at, r.d, r.err)
-			}
+		if i < len(tr.retries) {
+			r := tr.retries[i]
+			fmt.Fprintf(&b, "    OnRetry #%d @%v wait=%v err=%v\n", i, r.at, r.d, r.err)
 		}
 	}
 	fmt.Fprintf(&b, "  events=%d getBodyCalls=%d cancelledAt=%v Connect returned @%v: %v", len(tr.events), tr.getBodyCalls, tr.cancelledAt, tr.returnedAt, tr.final)
